@@ -12,6 +12,7 @@
      baseline after one collection once results are dropped.
 """
 import json
+import os
 
 import vlib
 import corpus
@@ -215,6 +216,42 @@ def evaluator_part(chk, tier, seed, programs):
     chk.sample({"program": programs[0][0], "schedules": sch[:4]}, limit=8)
 
 
+def cli_deep_part(chk, tier, seed):
+    """Deep live structures through the real binary with its default collection heuristic: the collector
+    must cope with a reference chain of any depth (its mark phase works on a queue, not the native stack)."""
+    import subprocess
+    cli = vlib.build_cli()
+    tmp = vlib.workdir("c03", f"tmp{os.getpid()}")
+    progs = []
+    for d in ((50000, 200000) if tier == "quick" else (50000, 200000, 600000)):
+        progs.append((f"deeplist:{d}", f"local l = std.foldl(function(acc, i) {{ next: acc, v: i }}, std.range(1, {d}), null); "
+                                       f"local len(n, k) = if n == null then k else len(n.next, k + 1) tailstrict; len(l, 0)", str(d)))
+        progs.append((f"deeparr:{d}", f"local a = std.foldl(function(acc, i) [acc], std.range(1, {d}), 0); "
+                                      f"local depth(x, k) = if std.isArray(x) then depth(x[0], k + 1) tailstrict else k; depth(a, 0)", str(d)))
+    try:
+        for name, src, want in progs:
+            p = os.path.join(tmp, "deep.jsonnet")
+            with open(p, "w") as f:
+                f.write(src)
+            try:
+                pr = subprocess.run(["timeout", "-s", "KILL", "240", cli, "-s", "100000000", p], capture_output=True, timeout=300)
+                rc, out, err = pr.returncode, pr.stdout.decode().strip(), pr.stderr.decode("utf-8", "replace")[-300:]
+            except subprocess.TimeoutExpired:
+                rc, out, err = -9, "", "timeout"
+            chk.count(key="clideep:" + name, nontrivial=True)
+            if rc in (-9, 137):
+                chk.outside += 1
+                continue
+            if rc != 0 or out != want:
+                chk.disagree({"kind": "cli-deep", "class": "crash" if rc not in (0, 1) else "wrong", "program": name.split(":")[0]},
+                             f"binary on {name} with the default collection heuristic: exit status {rc}, output {out[:60]!r} "
+                             f"(expected {want}), stderr tail {err[-160:]!r}", {"k": "eval", "src": src, "max_stack": 100000000})
+    finally:
+        import shutil
+        shutil.rmtree(tmp, ignore_errors=True)
+    chk.extra["cli_deep_programs"] = len(progs)
+
+
 def run(tier, seed):
     chk = Check(PROP, tier, seed)
     chk.rule = ("heap: every transition of the exhaustively explored Heap model (distinct pre-state/action) "
@@ -245,6 +282,7 @@ def run(tier, seed):
     inh = c07.gen(chk, "large", "identity", 0, seed) + c07.gen(chk, "small", "triples", 120 if tier == "quick" else 1500, seed)
     progs += [(f"inh:{i}", ("local o = " + c["srcs"][-1] + "; [o, o + {}, std.objectFields(o)]").encode()) for i, c in enumerate(inh)]
     evaluator_part(chk, tier, seed, progs)
+    cli_deep_part(chk, tier, seed)
     return chk.finish()
 
 
